@@ -234,7 +234,7 @@ def correspondence(ctx):
         for t in itertools.product("a\n\r\x0c", repeat=n):
             texts.append("".join(t))
     brk = "\n\n\n\r\x0b\x0c\x1c\x1d\x1e\x85  "
-    for _ in range(ctx.budget(1500, 20000)):
+    for _ in range(ctx.budget(4000, 40000)):
         n = rng.randint(0, 14)
         texts.append("".join(rng.choice(brk) if rng.random() < 0.3 else rng.choice("ab >\t\x1f\xa0") for _ in range(n)))
     rep = drv.batch([("splitlines", {"text": t}) for t in texts])
@@ -252,7 +252,7 @@ def correspondence(ctx):
         for t in itertools.product("a\n\r", repeat=n):
             if "\r" in t:
                 files.append("".join(t))
-    for _ in range(ctx.budget(25, 250)):
+    for _ in range(ctx.budget(70, 500)):
         mt, names, seqs = gen_recset(rng, ragged=True, small=True)
         eol = rng.choice(["\n", "\n", "\r\n"])
         lines = []
@@ -289,7 +289,7 @@ def correspondence(ctx):
 
     # ---- 3. writers ----------------------------------------------------------
     wreq, wreal, wmeta = [], [], []
-    n_sets = ctx.budget(160, 2500)
+    n_sets = ctx.budget(500, 5000)
     for i in range(n_sets):
         r = rng.random()
         mt, names, seqs = gen_recset(rng, ragged=r < 0.25, distinct_trunc=False, small=rng.random() < 0.5)
@@ -334,6 +334,17 @@ def correspondence(ctx):
 
     # ---- 4. parsers: writer output + malformed stream -------------------------
     preq, preal, pmeta = [], [], []
+    # The model carries two record splitters for iter_fasta_records(bytes): the one the pinned code uses
+    # (split on ">" anywhere; theorem fasta_parsers_agree_partial + fasta_bytes_gt_counter) and the repaired one
+    # (split at line starts; theorem fasta_parsers_agree_repaired).  One probe decides which of the two the code
+    # under test is compared with -- on ALL inputs below.
+    bytes_cmd = "fasta_bytes" if real_bytes(">a>b c\nACGT\n") == [["b c", "ACGT"]] else "fasta_bytes_ls"
+    bump(out, "bytes_record_splitter", "gt-anywhere" if bytes_cmd == "fasta_bytes" else "line-start")
+    ctx.notes.append(
+        "iter_fasta_records(bytes) corresponds to the model splitter "
+        + ("fastaBytes (split on '>' anywhere): agreement needs the no-'>' hypothesis" if bytes_cmd == "fasta_bytes"
+           else "fastaBytesLS (split at line starts): fasta_parsers_agree_repaired applies, no hypothesis on labels")
+    )
 
     def add(cmd, arg, real, what):
         preq.append((cmd, arg))
@@ -345,7 +356,7 @@ def correspondence(ctx):
         if ls:
             add("strict", {"lc": ">", "lines": ls}, real_strict(ls), "strict parser (writer output)")
             add("faster", {"lc": ">", "lines": ls}, real_faster(ls), "faster parser (writer output)")
-        add("fasta_bytes", {"text": t}, real_bytes(t), "bytes parser (writer output)")
+        add(bytes_cmd, {"text": t}, real_bytes(t), "bytes parser (writer output)")
     for t in texts_by_fmt["gde"]:
         ls = t.splitlines()
         if ls:
@@ -355,7 +366,7 @@ def correspondence(ctx):
         add("paml", {"lines": t.splitlines()}, real_paml(t.splitlines()), "paml parser (writer output)")
     for t in texts_by_fmt["phylip"]:
         add("phylip", {"lines": t.splitlines()}, real_phylip(t.splitlines()), "phylip parser (writer output)")
-    for _ in range(ctx.budget(1500, 25000)):
+    for _ in range(ctx.budget(5000, 50000)):
         lc = rng.choice([">", ">", "%#"])
         ls = [_line_pool(rng, lc) for _ in range(rng.randint(1, 8))]
         add("strict", {"lc": lc, "lines": ls}, real_strict(ls, lc), "strict parser (malformed stream)")
@@ -363,9 +374,9 @@ def correspondence(ctx):
         if lc == ">":
             eol = rng.choice(["\n", "\n", "\r\n"])
             t = eol.join(ls) + rng.choice(["", eol])
-            add("fasta_bytes", {"text": t}, real_bytes(t), "bytes parser (malformed stream)")
+            add(bytes_cmd, {"text": t}, real_bytes(t), "bytes parser (malformed stream)")
     hdrs = ["2 5", "2  5", "1 4", "3 6", "2 5 I", "2 5 i x", "x y", "", "2", "-1 3", "0 5", "2 0", "+2 05", "2.0 5", " 2 \t 5 "]
-    for _ in range(ctx.budget(1200, 20000)):
+    for _ in range(ctx.budget(4000, 40000)):
         h = rng.choice(hdrs)
         body = []
         for _ in range(rng.randint(0, 7)):
@@ -631,7 +642,7 @@ def spec_check(ctx, budget):
     scratch.mkdir(exist_ok=True)
 
     # ---- A. write / load round trip -------------------------------------------
-    n_sets = 14 * budget
+    n_sets = 40 * budget
     combos = [(k, s, c) for k in KINDS for s in SUFFIXES for c in COMPRESS]
     for i in range(n_sets):
         ragged = i % 4 == 3
@@ -664,7 +675,7 @@ def spec_check(ctx, budget):
                 out["samples"].append(dict(check="roundtrip", kind=kind, file=f"x.{sfx}{cmp_}", names=names, seq_len=len(seqs[0]), result="identical"))
 
     # ---- B. parser variants agree, labels verbatim ------------------------------
-    for i in range(40 * budget):
+    for i in range(120 * budget):
         mt, names, seqs = gen_recset(rng, ragged=True, distinct_trunc=False, small=i % 2 == 0)
         text = _variations(rng, names, seqs)
         want = [[n, s] for n, s in zip(names, seqs)]
@@ -679,7 +690,7 @@ def spec_check(ctx, budget):
     from cogent3.parse.fasta import MinimalGdeParser
     from cogent3.parse.sequence import PARSERS
 
-    for i in range(12 * budget):
+    for i in range(30 * budget):
         mt, names, seqs = gen_recset(rng, ragged=False, distinct_trunc=True, small=i % 2 == 0)
         bs = rng.choice([1, 4, 59, 60, 61])
         for fam in ("gde", "phylip", "paml"):
@@ -703,7 +714,7 @@ def spec_check(ctx, budget):
     # ---- C. every chunk size gives the same lines --------------------------------
     from cogent3.util.io import iter_splitlines
 
-    for i in range(6 * budget):
+    for i in range(16 * budget):
         mt, names, seqs = gen_recset(rng, ragged=True, distinct_trunc=False, small=True)
         text = _variations(rng, names[:3], seqs[:3])[: rng.choice([30, 60, 90])]
         p = scratch / "chunks.fasta"
@@ -719,7 +730,7 @@ def spec_check(ctx, budget):
         bump(out, "chunk_files", "crlf" if "\r\n" in text else "lf")
 
     # ---- D. GenBank parser variants (exercised only: no model, no theorem) ------------
-    for i in range(4 * budget):
+    for i in range(12 * budget):
         mt, names, seqs = gen_recset(rng, ragged=True, distinct_trunc=False)
         if i % 2 == 0:
             names, seqs = names[:1], seqs[:1]
